@@ -60,6 +60,33 @@ func main() {
 				os.Exit(1)
 			}
 			fmt.Println("no violation")
+		case "C16":
+			var rp batchReplay
+			a.LoadReplay(&rp)
+			var r *schema.Resource
+			for _, x := range u.Resources {
+				if x.Namespace == rp.Res {
+					r = x
+				}
+			}
+			pool := keyPool(ownKeyType(r), true)
+			var keys []poolKey
+			for _, l := range rp.Keys {
+				for _, k := range pool {
+					if k.label == l {
+						keys = append(keys, k)
+						break
+					}
+				}
+			}
+			w := NewWorld(u, DefaultConfig)
+			kind, detail := checkBatch(w, a.Gen, r, r.Method(rp.Method), keys, rp.Assign, rp.Foreign)
+			fmt.Printf("%s.%s keys %v assignment %v foreign %q\n", r.Name(), rp.Method, rp.Keys, rp.Assign, rp.Foreign)
+			if kind != "" && kind != "skip" {
+				fmt.Println("FAIL:", kind, detail)
+				os.Exit(1)
+			}
+			fmt.Println("no violation")
 		case "C08":
 			var rp outcomeReplay
 			a.LoadReplay(&rp)
@@ -94,6 +121,8 @@ func main() {
 		partC02(a, rep, univName, u)
 	case "C08":
 		partC08(a, rep, univName, u)
+	case "C16":
+		partC16(a, rep, univName, u)
 	default:
 		report.Internal("unknown part %q", a.Part)
 	}
